@@ -73,6 +73,27 @@ fn module(ctx: Arc<Ctx>) -> RpcModule<Arc<Ctx>> {
 				drop(pending);
 				return closing_value(script.closing);
 			}
+			"acceptTimeout" => {
+				// the handler gives `accept` 15 ms (the connection is saturated: pressure scenario) and then gives the subscription
+				// up - for the connection that is a pending sink dropped; the closing value it returns must be discarded
+				match tokio::time::timeout(Duration::from_millis(15), pending.accept()).await {
+					Err(_) => {
+						t.ev(json!({"ev": "HDropPending", "k": k}));
+						return closing_value(script.closing);
+					}
+					Ok(Ok(s)) => {
+						// (there was room after all: an ordinary accept, logged after the fact)
+						t.ev(json!({"ev": "HAcceptStart", "k": k}));
+						t.ev(json!({"ev": "HAcceptEnd", "k": k, "ok": true}));
+						sinks.push(s);
+					}
+					Ok(Err(_)) => {
+						t.ev(json!({"ev": "HAcceptStart", "k": k}));
+						t.ev(json!({"ev": "HAcceptEnd", "k": k, "ok": false}));
+						return SubscriptionCloseResponse::None;
+					}
+				}
+			}
 			_ => {
 				t.ev(json!({"ev": "HAcceptStart", "k": k}));
 				match pending.accept().await {
@@ -331,7 +352,9 @@ async fn pressure_scenario(sc: usize) -> Vec<Value> {
 	let tracer = Tracer::default();
 	let ctx = Arc::new(Ctx { tracer: tracer.clone(), scripts: Mutex::new(HashMap::new()), stall_full: tokio::sync::Notify::new(), stall_go: tokio::sync::Notify::new() });
 	ctx.scripts.lock().insert(1, HScript { first: "fill", ops: vec![], closing: false });
-	ctx.scripts.lock().insert(2, HScript { first: "accept", ops: vec![HOp::Send((sc % 2) as u8), HOp::Send(0)], closing: sc % 4 < 2 });
+	// every other pressure scenario: the second handler abandons its `accept` instead of waiting for room
+	let abandon = (sc / 15) % 2 == 1;
+	ctx.scripts.lock().insert(2, HScript { first: if abandon { "acceptTimeout" } else { "accept" }, ops: vec![HOp::Send((sc % 2) as u8), HOp::Send(0)], closing: abandon || sc % 4 < 2 });
 	let methods: jsonrpsee_server::Methods = module(ctx.clone()).into();
 	let rig = Rig::with_methods(RigCfg { max_subs: 2, buf_cap: 2, ..Default::default() }, Default::default(), methods);
 	tracer.ev(json!({"ev": "Reset", "sc": sc, "cap": 2, "pressure": true}));
@@ -396,14 +419,14 @@ async fn pressure_scenario(sc: usize) -> Vec<Value> {
 	});
 	// the second handler gets through now; then the first one is let go
 	for _ in 0..400 {
-		if tracer.0.lock().iter().any(|e| e["ev"] == "HReturn" && e["k"] == 2) {
+		if tracer.0.lock().iter().any(|e| (e["ev"] == "HReturn" || e["ev"] == "HDropPending") && e["k"] == 2) {
 			break;
 		}
 		tokio::time::sleep(Duration::from_millis(5)).await;
 	}
 	ctx.stall_go.notify_one();
 	for _ in 0..400 {
-		if ctx.scripts.lock().is_empty() && tracer.0.lock().iter().filter(|e| e["ev"] == "HReturn").count() == 2 {
+		if ctx.scripts.lock().is_empty() && tracer.0.lock().iter().filter(|e| e["ev"] == "HReturn" || e["ev"] == "HDropPending").count() == 2 {
 			break;
 		}
 		tokio::time::sleep(Duration::from_millis(5)).await;
